@@ -860,6 +860,38 @@ impl<'a> Hist<'a> {
                 return (v, "covenant-carried-by-a-batch-mate-only".into());
             }
         }
+        // a transaction that creates MEL from nothing — its outputs exceed its inputs by exactly what a FAUCET standing next
+        // to it in the batch takes in through its inputs (a faucet's own balance is not checked; what it brings in belongs to
+        // nobody else).  Rejected wherever it stands, however the batch is cut up between threads.
+        if em.mutate > 0 && r.chance(1, 12) {
+            let p = self.parts(name);
+            let coins_map = CoinMapping::new(p.coins.clone());
+            let wcoins = self.wallet.coins(&coins_map, &self.w.names);
+            let usable: Vec<&WCoin> = wcoins
+                .iter()
+                .filter(|c| c.cdh.coin_data.denom == Denom::Mel && c.cdh.coin_data.value.0 >= 200_000_000 && c.cdh.coin_data.value.0 < (1 << 100)
+                    && matches!(c.spec, CovSpec::StdNew(_) | CovSpec::AlwaysTrue))
+                .collect();
+            if usable.len() >= 3 {
+                let dest = self.wallet.spec_addr(CovSpec::StdNew(0));
+                let (cp, cf, ct) = (usable[0].clone(), usable[1].clone(), usable[2].clone());
+                let fee = 50_000_000u128;
+                let v = cf.cdh.coin_data.value.0;
+                let plain = assemble(&self.wallet, TxKind::Normal, &[cp.clone()], vec![crate::txgen::out(dest, cp.cdh.coin_data.value.0 - fee, Denom::Mel)], fee, vec![7]);
+                let faucet = assemble(&self.wallet, TxKind::Faucet, &[cf.clone()], vec![crate::txgen::out(dest, 1000, Denom::Mel)], fee, r.bytes(5));
+                let over = assemble(&self.wallet, TxKind::Normal, &[ct.clone()], vec![crate::txgen::out(dest, ct.cdh.coin_data.value.0 - fee + v, Denom::Mel)], fee, vec![8]);
+                for t in [&plain, &faucet, &over] {
+                    self.w.names.reg_tx(t);
+                }
+                self.bump("batch:over-spender-next-to-a-faucet-with-inputs");
+                let v = match r.below(3) {
+                    0 => vec![plain, faucet, over],
+                    1 => vec![faucet, over, plain],
+                    _ => vec![over, faucet, plain],
+                };
+                return (v, "over-spender-next-to-a-faucet-with-inputs".into());
+            }
+        }
         // an output of a stake transaction accepted earlier (its first output, or — what a staker would rather try —
         // the change) is spent: locked for the life of the stake, whichever output it is, whichever batch or block
         if em.stake_ops > 0 && !self.stake_txs.is_empty() && r.chance(1, 5) {
@@ -1474,6 +1506,8 @@ fn script_dust_withdrawal(h: &mut Hist, r: &mut Rng) {
             // every transaction needs a MEL input (the fee is an output of MEL, even when it is 0): six coins of 3
             crate::txgen::out(a0, 3, Denom::Mel), crate::txgen::out(a0, 3, Denom::Mel), crate::txgen::out(a0, 3, Denom::Mel),
             crate::txgen::out(a0, 3, Denom::Mel), crate::txgen::out(a0, 3, Denom::Mel), crate::txgen::out(a0, 3, Denom::Mel),
+            // a second deposit into the (then existing) pool, in the block of a withdrawal from it
+            crate::txgen::out(a0, base, Denom::Mel), crate::txgen::out(a0, base, Denom::NewCustom),
         ],
         fee: CoinValue(0),
         covenants: vec![],
@@ -1541,7 +1575,13 @@ fn script_dust_withdrawal(h: &mut Hist, r: &mut Rng) {
     // dust first: two requests of 1 in one batch, then the request of 2 in a batch of its own, same block
     let (w0, w1, w2) = (wd(h, 0, 1), wd(h, 1, 1), wd(h, 2, 2));
     let Some(u7) = h.op_batch(&u, &[w0, w1], "dust:withdraw-1-1") else { return };
-    let Some(u8) = h.op_batch(&u7, &[w2], "dust:withdraw-2") else { return };
+    // … together with a deposit into the same, existing pool: deposits are settled before withdrawals, and the withdrawal
+    // must see the pool the deposit left behind
+    let (dl, dr) = if l == Denom::Mel { (fcoin(10, l, base), fcoin(11, rr, base)) } else { (fcoin(11, l, base), fcoin(10, rr, base)) };
+    let d2 = assemble(&h.wallet, TxKind::LiqDeposit, &[dl, dr], vec![crate::txgen::out(a0, base, l), crate::txgen::out(a0, base, rr)], 0, key.to_bytes().to_vec());
+    h.w.names.reg_tx(&d2);
+    let second = if r.chance(1, 2) { vec![w2, d2] } else { vec![d2, w2] };
+    let Some(u8) = h.op_batch(&u7, &second, "dust:withdraw-2+deposit") else { return };
     let Some(u9) = seal_next(h, &u8) else { return };
     // the rest a block later
     let w3 = wd(h, 3, total - 4);
